@@ -16,9 +16,10 @@ import traceback
 
 class ObRec:
     """picklable obligation record"""
-    __slots__ = ("name", "kind", "status", "time", "detail", "inputs", "backend", "unit", "path")
+    __slots__ = ("name", "kind", "status", "time", "detail", "inputs", "backend", "unit", "path", "unconfirmed")
 
-    def __init__(self, name, kind, status, t=0.0, detail="", inputs=None, backend="z3", unit="", path=None):
+    def __init__(self, name, kind, status, t=0.0, detail="", inputs=None, backend="z3", unit="", path=None, unconfirmed=False):
+        self.unconfirmed = unconfirmed
         self.name = name
         self.kind = kind
         self.status = status  # 'unsat' discharged | 'sat' failed | 'unknown'
@@ -69,7 +70,8 @@ class Unit:
 def _collect(res, col, reg, unit_name):
     from .state import STATS
     for o in col.obligations:
-        res.obligations.append(ObRec(o.name, o.kind, o.status, o.time, o.detail, o.inputs, o.backend, unit_name, o.path))
+        res.obligations.append(ObRec(o.name, o.kind, o.status, o.time, o.detail, o.inputs, o.backend, unit_name, o.path,
+                                     getattr(o, "unconfirmed", False)))
     for fn, msg in col.unsupported:
         res.unsupported.append(f"{fn}: {msg}")
     res.paths = sum(f.paths for f in col.functions.values())
@@ -335,5 +337,9 @@ def factory_unit(ctx, res, col, reg, module, factory, arg, label):
     import importlib
     from .verify import verify_function
     c = getattr(importlib.import_module(module), factory)(arg)
+    if getattr(c, "registry_setup", None):
+        c.registry_setup(reg)
+    if "UBXMessage" in c.qualname:
+        reg.force_inline.update({"pyubx2.ubxmessage.UBXMessage.__setattr__"})
     verify_function(reg, c, col, label=label)
     res.functions.append(c.qualname)
